@@ -173,3 +173,8 @@ pub fn clauses() -> Vec<Clause> {
         Clause::generated("C17", "C17/chains", format!("random two-level trees incl. binary combinators. {o}"), 4000, 100_000, |t: Tier| with_streams(chain_strategy(t.pick(16, 48))), check).with_shard(500),
     ]
 }
+
+/// entry point for the libFuzzer targets: the clause's own oracle on a decoded case
+pub fn fuzz_check(case: &Case) -> Verdict {
+    check(case)
+}
